@@ -12,7 +12,7 @@ import math
 from ..model import load_model
 from ..harness import partition, valuations
 from .. import spec
-from ..evalengine import depth1_instances, eval_case, pmap, param_class, region_class
+from ..evalengine import depth1_instances, constant_child_instances, eval_case, pmap, param_class, region_class
 
 E = math.e
 
@@ -74,7 +74,7 @@ def check(rep):
     coarse = partition(model, "quick")
     inst1, unknown_classes = depth1_instances(model, tier)
     cases = []
-    for tree, label in inst1 + composite_instances():
+    for tree, label in inst1 + composite_instances() + constant_child_instances(model, tier):
         names = spec.variables(tree)
         use = atoms if len(names) <= 2 else coarse
         for val in valuations(names, use):
